@@ -440,6 +440,12 @@ fn compare(
 }
 
 pub fn check(c: &mut Checker, base: &Run) {
+    check_source(c, base, crate::runner::Source::Sim)
+}
+
+/// `base` is the keep-going run over `source`; with the serde_json source only `JsonError` is read
+/// back (the production pairing), against the document as the harness holds it
+pub fn check_source(c: &mut Checker, base: &Run, source: crate::runner::Source) {
     if c.scn.has_exotic || c.scn.has_dup {
         return;
     }
@@ -464,8 +470,12 @@ pub fn check(c: &mut Checker, base: &Run) {
     }
     let doc = c.scn.doc.clone();
     for (party, dialect) in [(ErrParty::JsonError, &JSON), (ErrParty::QueryParamError, &QUERY)] {
+        if source == crate::runner::Source::Json && party != ErrParty::JsonError {
+            continue;
+        }
         let mut cfg = c.cfg(Script::AllC);
         cfg.err = party;
+        cfg.source = source;
         let r = c.exec(&cfg, &|r| matches!(r.outcome, Outcome::ErrMsg(_)));
         let m = match &r.outcome {
             Outcome::ErrMsg(m) => m.clone(),
